@@ -6,6 +6,7 @@ import NomtModel.Driver.LocksMode
 import NomtModel.Driver.WalImage
 import NomtModel.Driver.OvlMode
 import NomtModel.Driver.BitOpsMode
+import NomtModel.Driver.SeglogMode
 /-!
 `nomt_model`: the executable Lean model behind a line protocol.
 First argument selects the sub-protocol; stdin → stdout, one output line per input line.
@@ -31,4 +32,5 @@ def main (args : List String) : IO UInt32 := do
   | ["wal"] => walLoop stdin stdout; return 0
   | ["ovl"] => loop stdin stdout ovlStep {}; return 0
   | ["bitops"] => loop stdin stdout bitopsStep (); return 0
+  | ["seglog"] => loop stdin stdout SegD.seglogStep {}; return 0
   | _ => IO.eprintln "usage: nomt_model <core|...>"; return 2
